@@ -300,7 +300,8 @@ MUTANTS += [
                 (S2S, "        t1_q1 = tmp1 @ t2_ref_tilde @ n_q1\n        t1_q2 = tmp1 @ t2_ref_tilde @ n_q2", "        t1_q1 = -tmp1 @ t1_ref_tilde @ n_q1\n        t1_q2 = -tmp1 @ t1_ref_tilde @ n_q2")],
          expect="C06.R10"),
     dict(id="c06-r10-2", what="Sphere2Sphere.gamma_F_u uses radius1 for the lever arm of sphere 2", file=S2S,
-         old="        r_C2P2_tilde = ax2skew(-self.radius2 * n)\n        J_C2 = self.J_C2(t, q)\n        J_R2 = self.J_R2(t, q)\n        gamma_F_u", new="        r_C2P2_tilde = ax2skew(-self.radius1 * n)\n        J_C2 = self.J_C2(t, q)\n        J_R2 = self.J_R2(t, q)\n        gamma_F_u", expect=["C06.R6", "C06.R10"], optional=True),
+         old="        J_P2 = self.J_C2(t, q) - ax2skew(-self.radius2 * n) @ self.J2_R(t, q)\n\n        gamma_F_u = np.zeros(",
+         new="        J_P2 = self.J_C2(t, q) - ax2skew(-self.radius1 * n) @ self.J2_R(t, q)\n\n        gamma_F_u = np.zeros(", expect=["C06.R6", "C06.R10"], optional=True),
 ]
 MUTANTS += [
     dict(id="c06-f24-orig", canary=True, what="Sphere2Sphere.g_N_ddot without the n_dot term (original defect F24)", file=S2S,
